@@ -3,43 +3,61 @@
 // Contracts for the verif build tag (read by /verif/govc; comment-only).
 package kv
 
-// Iterators over the key space are external state (Pebble): positions and keys are
-// arbitrary; moving an iterator changes nothing else.
+// A key iterator over the database as a cursor on the (sorted) sequence of its keys: the
+// sequence has ghost length n and ghost position pos in [-1, n]; Valid is 0 <= pos < n;
+// Next/Prev move by one, staying at the ends (an exhausted iterator steps back onto the
+// last key, as Pebble's does); SeekGE(k) lands on the lower bound of k (n when every key
+// is smaller), SeekLT(k) on the position just before it. The key at a position and the
+// lower bound of a key are functions of the database the iterator was opened on
+// (a snapshot: nothing is written while an iterator of the verified code is open).
+// What the order of the keys *is* is not modelled here.
 //
-//@ func KeyIterator.Valid
+//@ ghostfun kitKey(KeyIterator, int) string
+//@ ghostfun kitLB(KeyIterator, string) int
+//@ ghostfun dbKeyAt(DB, int) string
+//@ ghostfun dbLB(DB, string) int
+//@ ghostfun dbN(DB) int
+
+//@ func KeyIterator.Valid(recv) (res)
 //@ trusted
 //@ pure
-//@ nondet
+//@ ensures res <==> (0 <= ghost(pos, recv) && ghost(pos, recv) < ghost(n, recv))
 
-//@ func KeyIterator.Key
+//@ func KeyIterator.Key(recv) (res)
 //@ trusted
 //@ pure
-//@ nondet
+//@ ensures res == kitKey(recv, ghost(pos, recv))
 
-//@ func KeyIterator.Next
+//@ func KeyIterator.Next(recv) (res)
 //@ trusted
-//@ modifies nothing
+//@ modifies ghost(pos, recv)
+//@ ensures ghost(pos, recv) == ite(old(ghost(pos, recv)) < ghost(n, recv), old(ghost(pos, recv)) + 1, old(ghost(pos, recv)))
 
-//@ func KeyIterator.Prev
+//@ func KeyIterator.Prev(recv) (res)
 //@ trusted
-//@ modifies nothing
+//@ modifies ghost(pos, recv)
+//@ ensures ghost(pos, recv) == ite(old(ghost(pos, recv)) >= 0, old(ghost(pos, recv)) - 1, old(ghost(pos, recv)))
 
-//@ func KeyIterator.SeekGE
+//@ func KeyIterator.SeekGE(recv, key) (res)
 //@ trusted
-//@ modifies nothing
+//@ modifies ghost(pos, recv)
+//@ ensures ghost(pos, recv) == kitLB(recv, key)
 
-//@ func KeyIterator.SeekLT
+//@ func KeyIterator.SeekLT(recv, key) (res)
 //@ trusted
-//@ modifies nothing
+//@ modifies ghost(pos, recv)
+//@ ensures ghost(pos, recv) == kitLB(recv, key) - 1
 
 //@ func KeyIterator.Close
 //@ trusted
 //@ modifies nothing
 
-//@ func DB.KeyIterator() (it, err)
+//@ func DB.KeyIterator(recv) (it, err)
 //@ trusted
 //@ modifies nothing
-//@ ensures err == nil ==> it != nil
+//@ ensures err == nil ==> it != nil && fresh(it) && ghost(n, it) == dbN(recv) && dbN(recv) >= 0 && -1 <= ghost(pos, it) && ghost(pos, it) <= ghost(n, it)
+//@ ensures err == nil ==> forall k string :: kitLB(it, k) == dbLB(recv, k) && 0 <= dbLB(recv, k) && dbLB(recv, k) <= dbN(recv)
+//@ ensures err == nil ==> forall i int :: kitKey(it, i) == dbKeyAt(recv, i)
 
 // A write batch as two ghost sets on top of the database: `present`, the keys it makes
 // present (Put), and `deleted`, the keys it removes (Delete); the last operation on a
